@@ -1,6 +1,7 @@
 (* Finite sweeps by vm_compute: Refine(n) counts, terminal quads, two-triangle Reindex composition. *)
 From Coq Require Import ZArith List QArith.
 From MV Require Import Tri.PartitionDefs Tri.PartitionCheck.
+From MV Require Tri.TriModel.
 Import ListNotations.
 Local Open Scope Z_scope.
 Lemma sweep_uniform : forallb uniform_count_ok (zseq 1 64) = true.
@@ -8,4 +9,6 @@ Proof. vm_cast_no_check (eq_refl true). Qed.
 Lemma sweep_terminal : forallb (fun ea => forallb (quad_terminal_ok ea) bool4s) (terminal_eas 10) = true.
 Proof. vm_cast_no_check (eq_refl true). Qed.
 Lemma sweep_two_tri : forallb (fun '(d, a1, a2, b1, b2) => two_tri_ok d a1 a2 b1 b2) (five_tuples 5) = true.
+Proof. vm_cast_no_check (eq_refl true). Qed.
+Lemma sweep_split_ok : forallb (fun k => TriModel.split_okb (c0 k) (c1 k) (c2 k)) (tri_keys 24) = true.
 Proof. vm_cast_no_check (eq_refl true). Qed.
